@@ -18,7 +18,7 @@ CLAIMED = {
   technique="static analysis: outcome dataflow + path exploration over go/cfg, who-may-call table, comparison-shape agreement",
   ref="§4 C04"),
  "C05": dict(
-  text="Structural clauses of the distributed read path: every decode site of a coordinator *Response with an Err field surfaces a non-nil Err as a non-nil error on every path; retry loops and fan-outs return success only after every call of the round returned nil and mark failing nodes dirty before re-partitioning; per-iteration analysis of the shard-assignment loops shows each shard is appended to exactly one node bucket (or the mapping aborts); the already-mapped guard tests the map the loop fills; a failed framed exchange on a pooled connection is followed by MarkUnusable on every path; the value-type dispatch of the remote iterator path is exhaustive; a handler that streams a query iterator writes to the connection when streaming fails, before the connection closes (the reader takes a clean end of the connection for end of data).",
+  text="Structural clauses of the distributed read path: every decode site of a coordinator *Response with an Err field surfaces a non-nil Err as a non-nil error on every path; retry loops and fan-outs return success only after every call of the round returned nil and mark failing nodes dirty before re-partitioning; per-iteration analysis of the shard-assignment loops shows each shard is appended to exactly one node bucket (or the mapping aborts); the already-mapped guard tests the map the loop fills; a failed framed exchange on a pooled connection is followed by MarkUnusable on every path; the value-type dispatch of the remote iterator path is exhaustive; a handler that streams a query iterator writes to the connection when streaming fails, before the connection closes (the reader takes a clean end of the connection for end of data); every fan-out of the cluster mappings passes the loop over the remote shard groups before a success return unless there are none.",
   note="Does not decide liveness of owners, equality of the merged result with a single-node result, or truncated streams. The skip of a shard with an empty owner list is exempted on the grounds that the metadata never publishes a live shard without owners (C06 invariant).",
   technique="static analysis: per-site nil/outcome dataflow, loop-iteration path counting, type-switch exhaustiveness",
   ref="§4 C05"),
@@ -78,17 +78,17 @@ CLAIMED = {
   technique="static analysis: typed-AST table extraction and agreement, outcome facts at the count update, who-may-write, alias taint inside UnmarshalBinary, index-range cover between test and division loops",
   ref="§9 C13"),
  "C12": dict(
-  text="Structural clauses of point encoding: every length decoded from a binary point bounds a slice/allocation only after a non-wrapping test against the input length on every path; every tag-key comparison of the parser's sort machinery (sorted fast path, insertion-sort comparator, duplicate check) compares keys extracted by the escape-aware scanner, and package models never locates a line-protocol delimiter with a raw byte search; NewPointFromBytes yields a point only after UnmarshalBinary succeeded and a nil point with every error; escape tables are backslash+character pairs shared by escape and unescape, and every delimiter the measurement/tag scanners stop at is escaped by the writer; the field-type dispatch validating/rebuilding binary points covers the five types; per line of ParsePointsWithPrecision a failed parse is recorded and not kept, a successful one is kept, nothing aborts the loop, and failures surface as the error.",
+  text="Structural clauses of point encoding: every length decoded from a binary point bounds a slice/allocation only after a non-wrapping test against the input length on every path; every tag-key comparison of the parser's sort machinery (sorted fast path, insertion-sort comparator, duplicate check) compares keys extracted by the escape-aware scanner, and package models never locates a line-protocol delimiter with a raw byte search; NewPointFromBytes yields a point only after UnmarshalBinary succeeded and a nil point with every error; escape tables are backslash+character pairs shared by escape and unescape, and every delimiter the measurement/tag scanners stop at is escaped by the writer; the gate in front of tag escaping (Tags.needsEscape) looks for every character of the tag escape table in keys and in values; a float token in scientific notation is accepted by scanNumber only after parseFloatBytes validated it; the field-type dispatch validating/rebuilding binary points covers the five types; per line of ParsePointsWithPrecision a failed parse is recorded and not kept, a successful one is kept, nothing aborts the loop, and failures surface as the error.",
   note="Does not decide that a valid line 'means what it says', numeric parsing, timestamp precision arithmetic (the overflow test of SafeCalcTime: seeded change C12-3 is not detected), UTF-8 handling, or exact text/binary round-trip equality.",
   technique="static analysis: wire-length guard analysis with wrap-safety, definition provenance of comparison operands, typed-AST table agreement, enum exhaustiveness, per-iteration marked path exploration",
   ref="§9 C12"),
  "C09": dict(
-  text="Structural clauses of snapshot/compaction safety: in compactGroup the input files are replaced only on paths where CompactFast/CompactFull returned nil, the only other replacement removes the one unreadable file named by an errBlockRead, and the outputs of a failed installation are removed; the cache snapshot and WAL segments are released only after FileStore.Replace returned nil; the verbatim pass-through decision of all ten generated merge<T> variants tests tombstones and partial reads for the first and for every later block and overlap for every later block; block records taken from the reuse buffer have every struct field re-assigned, and their tombstones come from the reader of the iterator that produced the block; writeNewFiles returns file names only after write() succeeded; the reservation of the input files is released on every exit of CompactFull/CompactFast; Compactor.write looks at the enabled flags before every block read; compactGroup removes only elements of the slice the compaction returned.",
+  text="Structural clauses of snapshot/compaction safety: in compactGroup the input files are replaced only on paths where CompactFast/CompactFull returned nil, the only other replacement removes the one unreadable file named by an errBlockRead, and the outputs of a failed installation are removed; the cache snapshot and WAL segments are released only after FileStore.Replace returned nil; the verbatim pass-through decision of all ten generated merge<T> variants tests tombstones and partial reads for the first and for every later block and overlap for every later block; block records taken from the reuse buffer have every struct field re-assigned, and their tombstones come from the reader of the iterator that produced the block; writeNewFiles returns file names only after write() succeeded; the reservation of the input files is released on every exit of CompactFull/CompactFast; Compactor.write looks at the enabled flags before every block read; compactGroup removes only elements of the slice the compaction returned; blocks.Less for equal keys equals 'entirely before' on all orderings; a success return of writeNewFiles returns the accumulated file list; FileStore.files is read under the write lock wherever it is replaced.",
   note="Does not decide value-level merge arithmetic (newest wins, excluded ranges), block size/count limits, or sortedness of output blocks.",
   technique="static analysis: path exploration with outcome facts, attribute-set comparison between first-block test and per-block loop, struct-field coverage of re-initialisation, definition provenance",
   ref="§9 C09"),
  "C11": dict(
-  text="Structural clauses of query determinism: points streamed between nodes keep every attribute (for the five point types encode<T>Point reads every struct field, decode<T>Point sets every field, and the stream decoder delivers the whole struct or a covering field-wise copy; the option/interval/varref/measurement/stats codecs restore exactly the fields they read and read exactly the wire fields they set); for each of the ten storage-cursor merge functions next<T> the behaviour on every weak ordering of (cache key, file key, EOF) equals the merge table (both exhausted / equal keys: cache value and both advance / cache first in the cursor's direction / file first); ascending and descending code is mirror-symmetric wherever both are written out (if/else arms on opt.Ascending, '&&' alternatives over the same operands, ascending/descending cursor siblings): same comparisons with < and > exchanged.",
+  text="Structural clauses of query determinism: points streamed between nodes keep every attribute (for the five point types encode<T>Point reads every struct field, decode<T>Point sets every field, and the stream decoder delivers the whole struct or a covering field-wise copy; the option/interval/varref/measurement/stats codecs restore exactly the fields they read and read exactly the wire fields they set); for each of the ten storage-cursor merge functions next<T> the behaviour on every weak ordering of (cache key, file key, EOF) equals the merge table (both exhausted / equal keys: cache value and both advance / cache first in the cursor's direction / file first); ascending and descending code is mirror-symmetric wherever both are written out (if/else arms on opt.Ascending, '&&' alternatives over the same operands, ascending/descending cursor siblings): same comparisons with < and > exchanged; the placeholder for an empty remote answer, which claims a typed iterator interface, is recognised where the merged type is decided (inputs arrive in goroutine completion order); conditions comparing name and tag set together treat a series as the pair (13 sites); every fan-out of the cluster mappings asks every remote shard group before returning a result.",
   note="Does not decide window arithmetic, fill values, aggregate functions, limit/offset, or equality of multi-shard/multi-node results with a single-shard evaluation.",
   technique="static analysis: struct-field coverage of codecs, marked path exploration + exhaustive evaluation of compiled path conditions over all weak orderings, comparison-sequence mirror agreement",
   ref="§9 C11"),
@@ -98,7 +98,7 @@ CLAIMED = {
   technique="static analysis: must-precede and outcome facts, path avoidance between scan and flush, paired set operations per branch, definition provenance, path exploration with condition facts",
   ref="§9 C14"),
  "C18": dict(
-  text="Structural clauses of backup/restore/shard copy: the copy-shard handler's work closure returns nil only after backupRemoteShard, CreateShard and RestoreShard returned nil, the success response is sent only when the closure returned nil, Client.CopyShard returns the response's Err, and the meta handler adds the owner only after rpcClient.CopyShard returned nil; Engine.CreateSnapshot links files only after the forced WriteSnapshot succeeded or failed with ErrSnapshotInProgress while the caller allowed skipping the cache; the time-bounded export's block test equals 'block overlaps [start,end]' and its two file tests together equal 'file overlaps the window' on every ordering of their operands (under min<=max, start<=end); Engine.overlay installs uploaded files only after the archive was read to io.EOF and aborts on any other read error; Backup/Export remove nothing but the temporary snapshot directory; every coordinator connection handler (20) writes to the connection when its work closure failed (sibling agreement), and pkg/tar.Stream writes the end-of-archive marker only after a complete walk.",
+  text="Structural clauses of backup/restore/shard copy: the copy-shard handler's work closure returns nil only after backupRemoteShard, CreateShard and RestoreShard returned nil, the success response is sent only when the closure returned nil, Client.CopyShard returns the response's Err, and the meta handler adds the owner only after rpcClient.CopyShard returned nil; Engine.CreateSnapshot links files only after the forced WriteSnapshot succeeded or failed with ErrSnapshotInProgress while the caller allowed skipping the cache, and only Engine.Backup may allow that (call-site table); the time-bounded export's block test equals 'block overlaps [start,end]' and its two file tests together equal 'file overlaps the window' on every ordering of their operands (under min<=max, start<=end); Engine.overlay installs uploaded files only after the archive was read to io.EOF and aborts on any other read error; Backup/Export remove nothing but the temporary snapshot directory; every coordinator connection handler (20) writes to the connection when its work closure failed (sibling agreement), and pkg/tar.Stream writes the end-of-archive marker only after a complete walk.",
   note="Does not decide equality of reads on the restored shard, tar framing or hard-link semantics. Observed and not covered by a rule: the time-bounded export fails (with an error) for a TSM file that has a tombstone file.",
   technique="static analysis: outcome facts and path exploration, predicate compilation + exhaustive evaluation over weak orderings, definition provenance",
   ref="§9 C18"),
